@@ -432,12 +432,51 @@ def wiring_pre_build(ctx):
     return ok, msg
 
 
+_GENERATED_BY = {"HcProgs": "translate_hc", "Wiring": "translate_wiring", "Defaults": "translate_defaults", "Setup": "translate_setup",
+                 "FnCalls": "translate_fncalls", "Dialog": "translate_dialog", "GeoWiring": "translate_geo"}
+
+
+def needed_translators(lean_modules):
+    """the translators whose generated table the given Lean modules import, directly or through other modules of the library
+    (text-level walk of the `import PyomaVerif.…` lines); a generated file nobody maps to a translator counts as 'all'"""
+    seen, todo, need = set(), list(lean_modules), set()
+    while todo:
+        m = todo.pop()
+        if m in seen or not m.startswith("PyomaVerif."):
+            continue
+        seen.add(m)
+        if m.startswith("PyomaVerif.Generated."):
+            g = m.split(".")[-1]
+            if g not in _GENERATED_BY:
+                return None
+            need.add(_GENERATED_BY[g])
+            continue
+        path = os.path.join(LEAN, *m.split(".")) + ".lean"
+        try:
+            for line in open(path):
+                if line.startswith("import "):
+                    todo.append(line.split()[1])
+                elif line.strip() and not line.startswith(("/-", "--", " ", "*")) and not line.startswith("import"):
+                    break
+        except OSError:
+            return None
+    return need
+
+
 def all_pre_build(ctx):
-    """regenerate EVERY generated Lean file (all translate_*.py of the harness) from the tested tree"""
+    """regenerate EVERY generated Lean file (all translate_*.py of the harness) from the tested tree.  A translator that fails
+    closed breaks the checks whose Lean modules import its table (found from the import graph of the check's LEAN_MODULES) —
+    not the others: their obligations do not read that table."""
     import translate_all
 
     ok, msg, summary = translate_all.write_all(REPO, LEAN)
     ctx.notes.append(f"translators: {msg}")
+    if not ok:
+        need = needed_translators(getattr(ctx, "lean_modules", []) or [])
+        failed = [part.split(":")[0].strip() for part in msg.split(";") if "failed closed" in part or "fail" in part.lower() and ": ok" not in part]
+        if need is not None and failed and not (set(failed) & need):
+            ctx.notes.append(f"translators that failed closed ({failed}) feed no module of this check (needs {sorted(need)})")
+            return True, msg
     return ok, msg
 
 
@@ -527,6 +566,7 @@ def _run(ctx, mod):
     # 1. regenerate + build + audit
     gen_log = None
     if hasattr(mod, "pre_build"):
+        ctx.lean_modules = list(getattr(mod, "LEAN_MODULES", []))
         gen_ok, gen_log = mod.pre_build(ctx)
         if not gen_ok:
             broken.append({"kind": "translator", "detail": gen_log})
